@@ -15,6 +15,14 @@ def is_tld_shape(tu):
     why = []
     match = [p for p in paths if p.ret() and not str(p.ret()[1]).startswith('-')]
     other = [p for p in paths if p not in match]
+    # is this still the idiom the rule understands - a scan of the table rows comparing row->domain with the label
+    # in place?  A different algorithm (copy and compare, binary search, ...) is not judged here: exit 2, not an alarm.
+    cmpf = ('strncasecmp', 'strcasecmp', 'strncmp', 'strcmp', 'memcmp')
+    recognised = any(c[1] in cmpf and any(re.fullmatch(r".+->domain", a) for a in c[2][:2]) and start in c[2][:2] for p in paths for c in p.calls())
+    if not recognised:
+        alt = tld_copy_idiom(tu, paths, start, end)
+        if alt is not None: return alt
+        raise AnalysisBroken('is_tld no longer compares row->domain with the label in place (a different lookup algorithm): the lookup-shape rule cannot judge it; re-confirm R7.2 / R11.0')
     if not match: why.append('no path returns a class')
     for p in match:
         calls = [c for c in p.calls() if c[1] not in ('__ctype_b_loc',)]
@@ -106,3 +114,66 @@ def ptr_off(expr):
         if not ok or d != 0: break
         off += int(m.group(3)) * (1 if m.group(2) == '+' else -1); e = inner
     return e, off
+
+
+def tld_copy_idiom(tu, paths, start, end):
+    """second lookup idiom: the label is copied (folded) into a local buffer which is then compared with each row.
+    Conditions that keep the statement true: the whole label [start, end) is in the buffer when a row is compared (a
+    label longer than the buffer must be rejected, not compared by its prefix); the comparison is case-insensitive
+    (folding copy + exact compare, or plain copy + strcasecmp); whole-string compare; match => row->type, otherwise
+    -EEAV_TLD_INVALID; leaving the table early is only allowed on `label < row` with a table sorted in strcmp order."""
+    arrays = {d['name'] for d in __import__('astutil').find(tu.fn('is_tld'), 'VarDecl') if re.fullmatch(r'(?:unsigned |signed )?char\[\d+\]', d.get('type', {}).get('qualType', ''))}
+    cmpf = ('strcmp', 'strcasecmp', 'strncmp', 'strncasecmp', 'memcmp')
+    def cmp_calls(p):
+        return [c for c in p.calls() if c[1] in cmpf and any(a in arrays for a in c[2][:2]) and any(re.fullmatch(r".+->domain", a) for a in c[2][:2])]
+    if not any(cmp_calls(p) for p in paths): return None
+    why = []
+    for p in paths:
+        cs = cmp_calls(p)
+        r = p.ret()
+        if not cs:
+            if r is None or r[1] != '-EEAV_TLD_INVALID': why.append(f'exit without lookup returns {r[1] if r else None}')
+            continue
+        i0 = p.events.index(cs[0])
+        buf = [a for a in cs[0][2][:2] if a in arrays][0]
+        # B1 whole label
+        last = None
+        for e in p.events[:i0]:
+            if e[0] == 'cond' and re.fullmatch(r"\(\(" + re.escape(start) + r" \+ .+\) < " + re.escape(end) + r"\)", e[1]): last = e
+        if last is None or last[2] is not False:
+            why.append(f'a label that does not fit into {buf}[] is compared by its prefix (the copy stopped before {end})')
+        # B2 case folding
+        writes = [e for e in p.events[:i0] if e[0] == 'set' and e[1].startswith(buf + '[') and e[2] not in ('0', "'\\x00'")]
+        if writes and not all(f'{start}[' in e[2] for e in writes): why.append(f'{buf}[] is not a copy of the label')
+        folding = all(("'A'" in e[2] and "'Z'" in e[2]) or 'tolower' in e[2] for e in writes) if writes else True
+        for c in cs:
+            if c[1] in ('strcmp', 'strncmp', 'memcmp') and not folding: why.append(f'{c[1]} on an unfolded copy: comparison is case-sensitive')
+            if c[1] in ('strncmp', 'strncasecmp', 'memcmp') and not re.fullmatch(r'.+->length', c[2][2]): why.append(f'{c[1]} over {c[2][2]} bytes is not a whole-label comparison')
+        if not any(e[0] == 'set' and e[1].startswith(buf + '[') and e[2] in ('0', "'\\x00'") for e in p.events[:i0]): why.append(f'{buf}[] is not NUL-terminated before the comparison')
+        # B3 / B4 verdicts
+        hit = [c for c in cs if p.passed(c[3], False)]
+        if r is None: continue
+        if not str(r[1]).startswith('-'):
+            rows = [a for a in (hit[-1][2][:2] if hit else ()) if a.endswith('->domain')]
+            if not hit or r[1] != rows[0][:-len('domain')] + 'type': why.append(f'returns {r[1]} without a matching comparison of that row')
+        else:
+            if r[1] != '-EEAV_TLD_INVALID': why.append(f'non-class exit returns {r[1]}')
+            sentinel = any(e[0] == 'cond' and re.fullmatch(r".+->domain", e[1]) and e[2] is False for e in p.events[i0:])
+            if not sentinel:
+                lt = any(e[0] == 'cond' and re.fullmatch(r"\((strcmp#\d+'*) < 0\)", e[1]) and e[2] for e in p.events[i0:])
+                ordered = cs[-1][1] == 'strcmp' and cs[-1][2][0] in arrays
+                if not (lt and ordered and table_sorted(tu)): why.append('the scan is left before the sentinel on a condition that is not "label < row in a strcmp-sorted table"')
+    return {'ok': not why, 'why': '; '.join(sorted(set(why))), 'paths': len(paths), 'idiom': 'copy-then-compare'}
+
+
+_sorted_cache = {}
+def table_sorted(tu):
+    """tld_list rows in strcmp (byte) order - read from src/auto_tld.c"""
+    if 'v' in _sorted_cache: return _sorted_cache['v']
+    import unitdb, tables
+    us = [u for u in unitdb.units() if u.rel == 'src/auto_tld.c']
+    t = unitdb.load_asts(us)['src/auto_tld.c']
+    _, rows = tables.global_table(t, 'tld_list')
+    names = [r[0].encode() for r in rows[:-1]]
+    _sorted_cache['v'] = names == sorted(names)
+    return _sorted_cache['v']
